@@ -104,7 +104,8 @@ type abConn struct {
 	s          [2]*abSide // 0 = client (node A), 1 = server side (node B), nil until accepted
 	connected  bool
 	connErr    *tcpip.Error
-	unclean    bool // an application closed a side while data was still owed in either direction: errors may be legitimate
+	startedAt  time.Duration // when the client called Connect
+	unclean    bool          // an application closed a side while data was still owed in either direction: errors may be legitimate
 	started    bool
 	iss        [2]uint32
 	haveISS    [2]bool
@@ -381,6 +382,7 @@ func (w *ABWorld) connect(ci int) {
 		return
 	}
 	c.started = true
+	c.startedAt = time.Since(w.T0)
 	wq := &waiter.Queue{}
 	ep, err := w.N[0].S.NewEndpoint(tcp.ProtocolNumber, w.net(), wq)
 	must(err, "client NewEndpoint")
@@ -431,6 +433,13 @@ func (w *ABWorld) accept() {
 				return
 			}
 			c.s[1] = &abSide{ep: ep, wq: wq, target: int64(w.Cfg.Bytes[c.id*2+1])}
+			if time.Since(w.T0)-c.startedAt > 20*time.Second {
+				// this stack starts an accepted connection's protocol goroutine in Accept: until the application accepts,
+				// nothing the client sends is acknowledged. A client that gives up meanwhile was kept waiting by the
+				// server application, not by the stack.
+				c.unclean = true
+				w.Probes["connections_accepted_late"]++
+			}
 			w.watchOut(c.s[1])
 			w.Settle()
 			return
@@ -530,7 +539,18 @@ func (w *ABWorld) read(ci, si int) bool {
 			if ws := c.s[1-si]; !s.eof && ws != nil && (ws.shutW || ws.closed) && s.read < ws.accepted {
 				// "truncated": end-of-stream is the peer's FIN taken in sequence, so everything the writer's
 				// writes had accepted before it shut down has to have been returned by now
-				w.Fail("eof-before-data", "", "connection %d: reader side %d saw end-of-stream after %d bytes but the writer's writes had accepted %d before it shut down", ci, si, s.read, ws.accepted)
+				sig := ""
+				if si == 1 {
+					// (finding F11, as in the stream-corrupt case below: the passive side's connection was created by a
+					// late bare ACK taken as a SYN cookie, its stream starts that many bytes late - here those were all)
+					for _, late := range c.lateAcks {
+						if late > 0 && s.read+int64(late) == ws.accepted {
+							sig = fmt.Sprintf(" [passive side accepted from a late bare ACK taken as SYN cookie: stream starts %d byte(s) late]", late)
+							break
+						}
+					}
+				}
+				w.Fail("eof-before-data", sig, "connection %d: reader side %d saw end-of-stream after %d bytes but the writer's writes had accepted %d before it shut down%s", ci, si, s.read, ws.accepted, sig)
 			}
 			s.eof = true
 		} else if isHard(err) {
@@ -978,8 +998,8 @@ func (w *ABWorld) Final(bound time.Duration) {
 	if w.faultsFired() == 0 && !w.stormed {
 		w.Probes["runs_without_any_fault"]++
 		for _, c := range w.conns {
-			if c.unclean {
-				continue
+			if c.unclean || c.s[1] == nil {
+				continue // (closed with something still owed, accepted late or never accepted: errors may be the applications' doing)
 			}
 			for si := 0; si < 2; si++ {
 				if s := c.s[si]; s != nil && s.hardErr != nil {
